@@ -25,8 +25,11 @@ MAXDIALS = 6
 # ---------------------------------------------------------------------------
 # scripts from TLC behaviours
 
-def beh_to_script(mode, b, name):
-    return {"name": name, "steps": b["steps"], "expected": b.get("res"), "origin": "tlc"}
+def beh_to_script(mode, b, name, step_wait_ms=0):
+    sc = {"name": name, "steps": b["steps"], "expected": b.get("res"), "origin": "tlc"}
+    if step_wait_ms:
+        sc["step_wait_ms"] = step_wait_ms
+    return sc
 
 
 def gen_behaviours(ctx, mode, cfg, n, depth, overrides=None, label=None):
@@ -312,7 +315,7 @@ def dead_driver(ctx, recs, scripts, what, min_frac=0.5):
         return
     ran = [r for r in recs if not r.get("skipped")]
     steered = [r for r in ran if r["steered"]]
-    if len(ran) < len(recs) or len(steered) < min_frac * len(recs):
+    if len(ran) < 0.6 * len(recs) or len(steered) < min_frac * len(ran):
         raise vlib.Infra("dead driver (%s): %d of %d scripts ran, %d steered; first reasons: %s" % (
             what, len(ran), len(recs), len(steered), [r.get("why") for r in ran if not r["steered"]][:4]))
 
